@@ -4,7 +4,7 @@ import json
 META = {
     "level": "model_checking",
     "technique": "TLA+ transcription of Message::encode / the decode dispatch order with scaled limits, enumerated exhaustively over all messages up to MAX_PROTOCOLS+1 names (round trip, >MAX rejected, names without '/' rejected, two-byte prefix iff sendable; canary: limit tested after the push); records of the real codec (verif hook) and of the frames real listeners/dialers write are evaluated by TLC against the property-level relation; the public select functions are fed enumerated malformed and seeded random bytes and the recorded outcomes validated by TLC (panic = violation)",
-    "text": "TLC enumerates every abstract message (3 fixed kinds, protocol lines, ls responses of 0..4 names over 2 sizes, with/without leading '/') against the transcribed codec. The real encode_message/decode_message round-trip Header/Ls/Na, protocol names of boundary lengths (1..16384+) and ls responses of 0..2500 names; hand-built ls bodies with 0/1/2/999/1000/1001/1002/3000 entries and one malformed entry (no '/', empty, over-long, no line feed, invalid UTF-8) at the first/middle/last position; the frames the real listener writes for ls / reject / confirm with 0..1500 protocols of various name lengths and the real dialer's proposal frames up to the 16383-byte limit are parsed and checked for a <=2-byte prefix, <=16383-byte body and the expected messages (oversized messages must be refused with an error). Listener, V1 dialer and V1Lazy dialer are fed enumerated malformed frame sequences in 5 chunkings and seeded random byte strings, then the peer hangs up and any stream handed out is used again (read, read, flush, close): outcomes must be errors for the enumerated cases, nothing may panic or hang.",
+    "text": "TLC enumerates every abstract message (3 fixed kinds, protocol lines, ls responses of 0..4 names over 2 sizes, with/without leading '/') against the transcribed codec. The real encode_message/decode_message round-trip Header/Ls/Na, protocol names of boundary lengths (1..16384+) and ls responses of 0..2500 names; hand-built ls bodies with 0/1/2/999/1000/1001/1002/3000 entries and one malformed entry (no '/', empty, over-long, no line feed, invalid UTF-8) at the first/middle/last position; the frames the real listener writes for ls / reject / confirm with 0..1500 protocols of various name lengths and the real dialer's proposal frames up to the 16383-byte limit are parsed and checked for a <=2-byte prefix, <=16383-byte body and the expected messages (oversized messages must be refused with an error). Listener, V1 dialer and V1Lazy dialer are fed enumerated malformed frame sequences (oversized, non-minimal and unterminated length prefixes, bad names, too many protocols, wrong header ...) in 5 chunkings and seeded random byte strings, then the peer hangs up and any stream handed out is used again (read, read, flush, close): outcomes must be errors for the enumerated cases, nothing may panic or hang.",
     "note": "Generated protocol names avoid line feeds and the reserved line '/multistream/1.0.0' (a Protocol with that name encodes to the header message; outside the statement's 'valid message'). Random bytes can only be checked for absence of panics/hangs.",
     "design_ref": "6/C15",
 }
